@@ -150,6 +150,22 @@ func (in *verifBalIn) verifC27Adopt(adjusted map[string]map[string][]int32, gen 
 // hand-off safety of both rounds); literalIntended: round 2 must equal the plan intended
 // in round 1 partition by partition.
 func (in *verifBalIn) verifC27Rounds(requireComplete, literalIntended bool, who string) {
+	// natively (counterexample replay) the balancer's result can depend on Go's random
+	// map iteration order: repeat from the same initial state
+	claims0 := make([]map[string][]int32, in.nMembers)
+	for m := range claims0 {
+		claims0[m] = verifBalCloneClaims(in.claims[m])
+	}
+	for i := verifBalRuns(); i > 0; i-- {
+		for m := range claims0 {
+			in.claims[m] = verifBalCloneClaims(claims0[m])
+		}
+		in.adopted = false
+		in.verifC27RoundsOnce(requireComplete, literalIntended, who)
+	}
+}
+
+func (in *verifBalIn) verifC27RoundsOnce(requireComplete, literalIntended bool, who string) {
 	intended1, adj1 := in.verifC27Round()
 	if adj1 == nil {
 		return
@@ -258,7 +274,7 @@ func VerifC27_cleanOwnership() {
 	if verifThorough() {
 		in = verifBalShape(2, 3, []int{3, 2}, false, false, true)
 	} else {
-		in = verifBalShape(2, 3, []int{2, 2}, false, false, true)
+		in = verifBalShape(2, 3, []int{2, 1}, false, false, true)
 	}
 	in.verifBalCleanClaims()
 	in.fixedGens = true
@@ -275,7 +291,7 @@ func VerifC27_staleClaims() {
 	if verifThorough() {
 		in = verifBalShape(2, 3, []int{2, 2}, false, false, true)
 	} else {
-		in = verifBalShape(2, 3, []int{2, 1}, false, false, true)
+		in = verifBalShapeN(2, 2, []int{1, 1}, []int{2, 1}, false, false, true)
 	}
 	in.verifBalSubscribedOwnerClaims()
 	in.verifC27Rounds(in.nMembers == 2, false, "stale claims, two members")
@@ -316,7 +332,7 @@ func VerifC27_droppedSubscription() {
 	if verifThorough() {
 		in = verifBalShape(2, 3, []int{2, 2}, false, false, true)
 	} else {
-		in = verifBalShape(2, 3, []int{2, 1}, false, false, true)
+		in = verifBalShapeN(3, 3, []int{2, 1}, []int{2, 1}, false, false, true)
 	}
 	in.verifBalOwnerClaims(false)
 	in.fixedGens = true
@@ -327,7 +343,18 @@ func VerifC27_droppedSubscription() {
 // VerifC27_intendedPlanLiteral: the literal reading of "the next rebalance completes the
 // intended assignment": round 2 equals the plan intended in round 1.
 func VerifC27_intendedPlanLiteral() {
-	in := verifBalShape(2, 3, []int{2, 2}, false, false, true)
+	var in *verifBalIn
+	if verifThorough() {
+		in = verifBalShape(2, 3, []int{2, 2}, false, false, true)
+	} else {
+		// every member subscribes to both topics
+		in = &verifBalIn{topics: map[string]int32{"t0": 2, "t1": 2}, order: []string{"t0", "t1"}, nMembers: 3}
+		in.subs = [][]string{{"t0", "t1"}, {"t0", "t1"}, {"t0", "t1"}}
+		in.claims = []map[string][]int32{{}, {}, {}}
+		in.gens = make([]int32, 3)
+		in.racks = make([]string, 3)
+		in.instance = make([]bool, 3)
+	}
 	in.verifBalCleanClaims()
 	in.fixedGens = true
 	in.verifC27Rounds(true, true, "clean ownership")
@@ -341,7 +368,7 @@ func VerifC27_arbitraryTwoMembers() {
 	if verifThorough() {
 		in = verifBalShape(1, 2, []int{2, 2}, true, false, false)
 	} else {
-		in = verifBalShape(2, 2, []int{2, 1}, false, false, true)
+		in = verifBalShape(2, 2, []int{1, 1}, false, false, true)
 	}
 	in.verifBalClaims()
 	in.verifC27Rounds(true, false, "arbitrary claims, two members")
@@ -355,7 +382,10 @@ func VerifC27_symbolicGenerations() {
 	if verifThorough() {
 		in = verifBalShape(2, 3, []int{2, 1}, false, false, true)
 	} else {
-		in = verifBalShape(2, 2, []int{1, 1}, false, false, true)
+		in = verifBalShapeN(2, 2, []int{1, 1}, []int{1, 1}, false, false, true)
+	}
+	if !verifThorough() && len(in.subs[0]) < 2 {
+		return // quick: m0 subscribes to both topics
 	}
 	in.symGens = true
 	in.verifBalOwnerClaims(true)
